@@ -84,12 +84,13 @@ def exec_total(check: Check, repo: Repo, mr: MayRaise) -> None:
     rule = "EXEC-WRAP"
     check.rule(
         rule,
-        "field execution is total: the exception classes that can escape execute_field, "
-        "complete_awaitable_value, complete_list_item_value, complete_awaitable_list_item_value (explicit "
-        "raises through the call graph minus handlers) are a subset of {GraphQLError} (the located error "
-        "re-raised for non-null positions); every call of a user callback (resolver, is_type_of, "
-        "resolve_type, coerce_output_value) lies inside a try whose handler covers Exception; the roots "
-        "convert GraphQLError into a null response (TWIN-HANDLERS)",
+        "field execution is total: in execute_field, complete_awaitable_value, complete_list_item_value and "
+        "complete_awaitable_list_item_value every call of a raising completion step (complete_value & co.) and "
+        "every call of a user callback (resolver, is_type_of, resolve_type, coerce_output_value - found by "
+        "dataflow from field_def.resolve / self.field_resolver / return_type.is_type_of ...) lies inside a try "
+        "whose `except Exception` handler converts with handle_field_error / located_error (a re-raising "
+        "handler does not count); a callback call in a partial function is accepted only if every call chain "
+        "to it passes such a try; handle_field_error raises nothing but the value located_error returned",
     )
     # (a) partial functions (those with an explicit raise of their own or reaching one) are called from the
     #     wrappers only inside try/except Exception
